@@ -16,7 +16,7 @@
 From Coq Require Import ZArith NArith String List Bool.
 Import ListNotations.
 From TP Require Import Base.PyVal Base.PyEq Fields.FieldAst Fields.SetChain Fields.Doc Struct.Instance
-  Ser.Json Ser.Serialize Ser.Deserialize Ser.RoundTripProofs.
+  Ser.Json Ser.Serialize Ser.Deserialize Ser.RoundTripProofs Ser.SerOps Gen.SerSites Ser.SerTieProofs.
 Local Open Scope string_scope.
 
 Section C05.
@@ -90,6 +90,30 @@ Section C05.
   Proof. exact (rt_compact re_match e ens fl). Qed.
 End C05.
 
+(* ---- ties to the source text (Gen/SerSites.v is regenerated from /repo on every run) *)
+
+(* the `except` clauses of deserialize_multifield_wrapper / serialize_multifield_wrapper swallow every exception: this
+   is what "an earlier option rejects, with whatever exception" in C05_anyof rests on *)
+Theorem C05_src_option_dispatch_catches_everything :
+  forall x, catches h_deser_multifield x = true /\ catches h_ser_multifield x = true.
+Proof. exact src_option_dispatch_catches_everything. Qed.
+
+(* the item loops of deserialize_list_like and the field loop of construct_fields_map catch TypeError/ValueError only *)
+Theorem C05_src_item_errors_are_te_ve :
+  forall x, named_exn x = true -> model_exn x = false ->
+    catches h_list_like_item_0 x = is_te_ve x /\ catches h_list_like_item_1 x = is_te_ve x /\
+    catches h_fields_map x = is_te_ve x.
+Proof. exact src_item_errors_are_te_ve. Qed.
+
+(* Enum.serialize as written in enum.py IS the model's ser_enum_member, on every member, by name and by value *)
+Theorem C05_src_enum_serialize :
+  forall by_value cls n x, Enum_serialize true by_value (PEnum cls n x) = ser_enum_member by_value (PEnum cls n x).
+Proof. exact src_enum_serialize_member. Qed.
+
+Theorem C05_src_enum_serialize_falsy :
+  forall cls n x, json_value_ok x = true -> py_truthy x = false -> Enum_serialize true true (PEnum cls n x) = Ok x.
+Proof. exact src_enum_serialize_falsy. Qed.
+
 (* the full statement (every valid instance of every class over the property's vocabulary) is false of the faithful
    model: F17, a required field whose declaration admits None and that holds None *)
 Theorem C05_refuted_required_none : ~ C05_statement.
@@ -102,6 +126,10 @@ Print Assumptions C05_anyof.
 Print Assumptions C05_enum_by_value.
 Print Assumptions C05_compact.
 Print Assumptions C05_refuted_required_none.
+Print Assumptions C05_src_option_dispatch_catches_everything.
+Print Assumptions C05_src_item_errors_are_te_ve.
+Print Assumptions C05_src_enum_serialize.
+Print Assumptions C05_src_enum_serialize_falsy.
 
 (* ---- non-vacuity: a nested instance with falsy values at every position satisfies [canon], and the
    theorem's conclusion computes *)
